@@ -7,6 +7,7 @@ from ..predabs import Vocab, PredAbs, A, Not, And, Or, T, translate, known_when,
 from ..rules import common
 
 TITLE = "Synchronous receive is a lossless ordered stream that drains before EOF"
+TECHNIQUE = 'custom static analysis over clang-14 CFG facts: must-lockset with RAII aliases, condition-variable discipline rule template, predicate abstraction over buffer/overflow flags'
 IMPL = "iora::network::Transport::Impl"
 SRB = IMPL + "::SyncReceiveBuffer"
 SCO = IMPL + "::SyncConnectOp"
